@@ -103,6 +103,7 @@ func (c04) Plan(tier string, seed int64) []mon.Workload {
 		{Name: "paths", N: (nk + nk*nk + nk*nk*nk) * 4, Exhaustive: true},
 		{Name: "alias-programs", N: progs},
 		{Name: "self-insertion", N: int64(len(c04SelfSetups) * len(c04SelfWrites)), Exhaustive: true},
+		{Name: "literal-fresh", N: int64(len(c18Literals) * len(c18LitWrites) * 2), Exhaustive: true},
 	}
 }
 
@@ -153,6 +154,9 @@ func (c04) build(c *mon.Ctx, workload string, i int64) c04Case {
 	switch workload {
 	case "self-insertion":
 		return c04SelfCase(i)
+	case "literal-fresh":
+		// the table of C18, on the v1 interpreter
+		return c04Case{Stmts: c18LiteralFresh(i), Nontrivial: true}
 	case "slice-cube":
 		bounds := c04Bounds(c.Tier)
 		nb := int64(len(bounds))
@@ -342,7 +346,7 @@ func (k c04) Run(c *mon.Ctx, workload string, i int64) {
 		c.Violate(r.Class+":"+workload, fmt.Sprintf("%s\n--- program\n%s", r.Detail, src), info)
 		return
 	}
-	if (workload == "alias-programs" || workload == "self-insertion") && mo.Unspecified == "" && !mo.Shared.MapOrderDependent {
+	if (workload == "alias-programs" || workload == "self-insertion" || workload == "literal-fresh") && mo.Unspecified == "" && !mo.Shared.MapOrderDependent {
 		// values built by one run (literals, containers) must not leak into
 		// the next run of the same loaded script
 		real2 := drive.PointFromModel(mp)
